@@ -330,9 +330,8 @@ class Judge:
             mlines = ctx.model("dshbak", "".join(model_line(c, self.repaired) for c in cases), args=["model"])
             models = [parse_model(l, c["mode"]) for l, c in zip(mlines, cases)]
         # oracle input: real blocks, -c headers replaced by the real pdsh's expansion
-        spec_in = []
-        for c, r in zip(cases, reals):
-            recs = ",".join("%s:%s" % (hx(t), hx(b)) for t, b in c["recs"]) or "~"
+        def spec_line(c, r, recs_list):
+            recs = ",".join("%s:%s" % (hx(t), hx(b)) for t, b in recs_list) or "~"
             bl = []
             for (h, lines) in r["blocks"]:
                 if c["mode"] == "c":
@@ -340,14 +339,21 @@ class Judge:
                     bl.append("%s=%s" % (hxl(hosts if st == "ok" else []), hxl(lines)))
                 else:
                     bl.append("%s=%s" % (hx(h), hxl(lines)))
-            spec_in.append("%s %s | %s\n" % ("c" if c["mode"] == "c" else "n", recs, ";".join(bl) or "."))
-        slines = ctx.model("dshbak", "".join(spec_in), args=["spec"])
+            return "%s %s | %s\n" % ("c" if c["mode"] == "c" else "n", recs, ";".join(bl) or ".")
+        slines = ctx.model("dshbak", "".join(spec_line(c, r, c["recs"]) for c, r in zip(cases, reals)), args=["spec"])
+        # D21 classification: is the ONLY deviation the missing final (unterminated) record?
+        again = [i for i, (c, s) in enumerate(zip(cases, slines)) if c["stream"] == "unterminated" and s != "ok"]
+        only_last = {}
+        if again:
+            tl = ctx.model("dshbak", "".join(spec_line(cases[i], reals[i], cases[i]["recs"][:-1]) for i in again),
+                           args=["spec"])
+            only_last = {i: (t == "ok") for i, t in zip(again, tl)}
         out = []
-        for c, r, m, s in zip(cases, reals, models, slines):
-            out.append(self.verdicts(c, r, m, s))
+        for i, (c, r, m, s) in enumerate(zip(cases, reals, models, slines)):
+            out.append(self.verdicts(c, r, m, s, only_last.get(i, False)))
         return out
 
-    def verdicts(self, c, r, m, s):
+    def verdicts(self, c, r, m, s, only_last_missing=False):
         v = []
         res = {"real": r, "model": m, "oracle": s, "verdicts": v}
         if r["rc"] != 0:
@@ -369,7 +375,8 @@ class Judge:
                 for mb in (m or []):
                     if header_is_perm_of(h, mb["groups"]):
                         group = mb["tags"]
-                tags = group if group is not None else [t for t, _ in c["recs"]]
+                tags = group if (group is not None or m is not None) else [t for t, _ in c["recs"]]
+                tags = tags or []
                 if has_empty_stem_clash(tags):
                     sig = "header-refused:empty-stem"
                 elif "Too many hosts" in info and len(tags) > 16384:
@@ -379,10 +386,8 @@ class Judge:
                 v.append(("offender", sig, "pdsh refuses the header `%s` dshbak printed: %s" % (h[:200], info)))
             elif s != "ok":
                 sig = "regroup:" + s[4:].replace(" ", "-")
-                if c["stream"] == "unterminated":
+                if c["stream"] == "unterminated" and only_last_missing:
                     sig = "unterminated-final-line"
-                elif c["mode"] == "c" and has_empty_stem_clash([t for t, _ in c["recs"]]):
-                    sig = "header-misread:empty-stem"
                 v.append(("offender", sig, "dshbak%s output violates the specification: %s" %
                           ({"c": " -c", "d": " -d", "n": ""}[c["mode"]], s)))
         # ---- correspondence with the model
@@ -504,7 +509,7 @@ def run(ctx):
             j = json.load(open(ctx.replay))
             cases = [case_from_json(j["case"]["case"] if "case" in j.get("case", {}) else j["case"])]
         else:
-            n = 330 if ctx.quick() else 9000
+            n = 1500 if ctx.quick() else 15000
             cases = load_corpus()
             for i in range(n):
                 stream = rng.choices(["plain", "unterminated", "emptystem", "odd"], [80, 6, 7, 7])[0]
